@@ -41,14 +41,19 @@ VALUES = {
 }
 
 
+EVAL_AT = []
+
+
 def stub_eval(outcome, value=None):
     def ctx(comp):
         @contextlib.contextmanager
         def cm():
             del CALLS[:]
+            del EVAL_AT[:]
 
             def ev(model):
                 CALLS.append(model)
+                EVAL_AT.append(len(sx.TOK_COMPILE_LOG))      # how many body forms had been compiled for run time by then
                 if outcome == "value":
                     return [1, "two"] if value is None else VALUES[value]
                 if outcome == "hy-error":
@@ -100,6 +105,10 @@ def run(chk):
                         ok = [t for t in out.compiled] == toks
                         chk.ob(name + "/each body form compiled exactly once, in order", ok, "structural", "arity_bounded",
                                detail=str(out.compiled))
+                        # staging order: nested staging forms are expanded while the body is compiled for run time, so they
+                        # must see the state the compile-time evaluation of the whole body has left behind
+                        chk.ob(name + "/the compile-time evaluation happens before any body form is compiled for run time",
+                               EVAL_AT == [0], "structural", "arity_bounded", detail=f"body forms compiled before the evaluation: {EVAL_AT}")
                     else:
                         # value [1, "two"] is promoted by as_model and compiled: a List display of the two constants
                         ok = (not r.stmts and isinstance(r._expr, ast.List) and [getattr(e, "value", None) for e in r._expr.elts] == [1, "two"]
@@ -173,7 +182,9 @@ def run(chk):
            '(setv v (eval-and-compile (.append hy._hv_log "eac") 5))\n'
            '(setv w (do-mac (.append hy._hv_log "dm") `(+ 1 ~2)))\n'
            '(defn f [] (eval-and-compile (.append hy._hv_log "eac-in-fn") 6))\n'
-           '(setv z (f))\n')
+           '(setv z (f))\n'
+           '(eval-and-compile (setv stage 0))\n'
+           '(eval-and-compile (setv stage (+ stage 1)) (setv seen (do-mac stage)))\n')
     hy._hv_log = []
     mod = types.ModuleType("hv_c16_e2e")
     tree = hy.compiler.hy_compile(hy.read_many(src), mod)
@@ -184,9 +195,9 @@ def run(chk):
         del hy._hv_log[:]
         ns = {"__name__": "hv_c16_e2e2", "hy": hy}
         exec(code, ns)
-        runs.append((list(hy._hv_log), ns["v"], ns["w"], ns["z"]))
+        runs.append((list(hy._hv_log), ns["v"], ns["w"], ns["z"], ns["seen"]))
     del hy._hv_log
-    ok = at_compile == ["ewc", "eac", "dm", "eac-in-fn"] and all(r == (["eac", "eac-in-fn"], 5, 3, 6) for r in runs)
+    ok = at_compile == ["ewc", "eac", "dm", "eac-in-fn"] and all(r == (["eac", "eac-in-fn"], 5, 3, 6, 1) for r in runs)
     chk.ob("e2e/compile once, execute twice: compile-time parts ran once at compile time, run-time parts once per execution",
            ok, "cpython-oracle", "bounded", detail=f"compile={at_compile} runs={runs}")
     chk.fn(f, "hy/core/result_macros.py::compile_macro_def", "hy/compiler.py::HyASTCompiler.eval (as contract)",
